@@ -107,6 +107,35 @@ def finishResp (s : Store) (b n : Bytes) (res : Store × Status) (c : Conds) : S
   | .precondition | .notModified => (s, condFail (s.obj? b n) c)
   | st => (s, .status st)
 
+def Store.setUploadData (s : Store) (idx : Nat) (data : Bytes) : Store :=
+  { s with uploads := s.uploads.map fun x => if x.id == idx then { x with data := data } else x }
+
+def Store.pin (s : Store) (idx : Nat) (d : Bytes) : Store :=
+  { s with uploads := s.uploads.map fun x => if x.id == idx then { x with pinned := some d } else x }
+
+def Store.dropUpload (s : Store) (idx : Nat) : Store :=
+  { s with uploads := s.uploads.filter (·.id != idx) }
+
+/-- the declared MD5 a completion attempt is checked against (see `Upload.pinned`) -/
+def effectiveDeclared (u : Upload) (d : Bytes) : Option (Bool × Bool) :=
+  match u.pinned with
+  | some d0 => some (true, d0 == d)
+  | none => u.declared
+
+def md5Passes : Option (Bool × Bool) → Bool
+  | some (false, _) => false
+  | some (true, false) => false
+  | _ => true
+
+/-- All bytes of a resumable upload are in: run `finishUpload`; the session is dropped only on
+    success. -/
+def resumeFinish (s1 : Store) (u : Upload) (idx : Nat) (d : Bytes) : Store × Resp :=
+  let decl := effectiveDeclared u d
+  let s2 := if md5Passes decl then s1.pin idx d else s1
+  let res := finishUpload s2 u.bucket u.name d u.meta decl u.conds
+  if res.2 = .ok then finishResp s2 u.bucket u.name (res.1.dropUpload idx, .ok) u.conds
+  else finishResp s2 u.bucket u.name (s2, res.2) u.conds
+
 def pageObjs (os : Objs) (names : List Bytes) : List Obj := names.filterMap os.get
 
 def step (s : Store) : Op → Store × Resp
@@ -130,30 +159,10 @@ def step (s : Store) : Op → Store × Resp
       match r with
       | none => (s, .status .badRequest)
       | some r =>
-        let (out, data') := resumeStep u.data r body
-        let setData (s : Store) : Store :=
-          { s with uploads := s.uploads.map fun x => if x.id == idx then { x with data := data' } else x }
-        match out with
-        | .bad => (s, .status .badRequest)
-        | .more k => (setData s, .more k)
-        | .done d =>
-          let s1 := setData s
-          let declared : Option (Bool × Bool) :=
-            match u.pinned with
-            | some d0 => some (true, d0 == d)
-            | none => u.declared
-          let passedMd5 := match declared with
-            | some (false, _) | some (true, false) => false
-            | _ => true
-          let s1 : Store := if passedMd5 then
-              { s1 with uploads := s1.uploads.map fun x => if x.id == idx then { x with pinned := some d } else x }
-            else s1
-          let res := finishUpload s1 u.bucket u.name d u.meta declared u.conds
-          match res.2 with
-          | .ok =>
-            let s2 := { res.1 with uploads := res.1.uploads.filter (·.id != idx) }
-            finishResp s1 u.bucket u.name (s2, .ok) u.conds
-          | _ => finishResp s1 u.bucket u.name (s1, res.2) u.conds
+        match resumeStep u.data r body with
+        | (.bad, _) => (s, .status .badRequest)
+        | (.more k, data') => (s.setUploadData idx data', .more k)
+        | (.done d, data') => resumeFinish (s.setUploadData idx data') u idx d
   | .getMeta b n =>
     match s.obj? b n with
     | some o => (s, .object b o)
@@ -185,7 +194,7 @@ def step (s : Store) : Op → Store × Resp
         match validateConds none c with
         | .ok =>
           if (s.bucket? b).isSome then
-            ({ s with buckets := s.buckets.filter (·.1 != b) }, .status .noContent)
+            ({ s with buckets := adel s.buckets b }, .status .noContent)
           else (s, .status .notFound)
         | _ => (s, condFail none c)
       else
